@@ -147,6 +147,8 @@ def main(argv):
         return c.finish(rule="build failed")
     c.proofs(extra_trusted=["Python zlib/bz2 and the gzip/bzip2 command line tools as independent decoders",
                             "independent MurmurHash64A reference in checks/C06.py"])
+    if c.tier == "thorough":
+        coqchk(c)
     drv, dlog = build_driver("C06")
     if drv is None:
         c.broken.append("extraction/driver build failed: " + dlog[-600:])
